@@ -580,6 +580,19 @@ def run(ck, prog, ctx):
                     lb_, ll_, how_ = lockstep[f_]
                     ck.ob("ORDER", "permuted/%s/%s" % (f_, b_.short), False, "%s permutes `self.%s` with `%s`, while %s consumes it positionally in %s (line %s): element i no longer pairs with the i-th value of the other sequence" % (b_.short, f_, t_.callee.method, lb_.short, how_, ll_), where=b_.where(t_.line))
     ck.extra["positionally consumed Vec fields of Linkage"] = sorted(lockstep)
+    # ---- DIRECTION: the two sides of a `zip` in the clustering code run in the same direction.  Scores are produced in the order of the sets
+    # they belong to; `scores.iter().rev().skip(1)` drops the LAST score and then keeps running backwards, so that paired with the ascending
+    # indices of the sets every score lands on the wrong set (for three or more partners).
+    from engines import adaptor_chain as _ac17
+    pvz = Prov(prog, inline=False)
+    for zb in sorted(prog.production(), key=lambda z: z.id):
+        if not (zb.file or "").startswith("src/stats/linkage") or zb.test:
+            continue
+        for zbi, zt in zb.calls():
+            if zt.callee.method == "zip" and zt.callee.trait == "std::iter::Iterator" and len(zt.args) == 2:
+                revs = [len([m_ for m_ in _ac17(zb, pvz, a_) if m_ == "rev"]) % 2 for a_ in zt.args]
+                ck.ob("ORDER", "zip-direction/%s/%d" % (zb.short, zbi), revs[0] == revs[1], "%s zips two sequences that run %s" % (zb.short, "in the same direction" if revs[0] == revs[1] else
+                      "in OPPOSITE directions (one side is reversed with `rev()` and never turned back): the i-th element of one side meets the i-th from the end of the other"), where=zb.where(zt.line))
     from engines import check_parallel_vectors as _cpv
     ck.rule("PARALLEL", "two Vec fields of one struct that a method edits together are edited at the same position")
     ck.extra["side-by-side vector edits examined"] = _cpv(ck, "PARALLEL", prog, [b_ for b_ in prog.production() if (b_.file or "").startswith(("src/stats/linkage",))])
